@@ -123,6 +123,16 @@ func ParseScalarPropertyType(str string) ScalarPropertyType {
 	panic(fmt.Errorf("unrecognized type %s", str))
 }
 
+// asciiBitSize is the precision an ASCII token of a property of the given type
+// holds: only float (float32) values are rounded to 32 bits, doubles and the
+// integer types keep every digit a float64 can represent.
+func asciiBitSize(t ScalarPropertyType) int {
+	if t == Float {
+		return 32
+	}
+	return 64
+}
+
 func readPlyProperty(contents []string) (Property, error) {
 	if strings.ToLower(contents[1]) == "list" {
 		if len(contents) != 5 {
